@@ -137,7 +137,7 @@ def error_class(x):
     m = re.search(r"caused by: ([^\n]*)$", full.strip())
     cause = (m.group(1) if m else last)[:80]
     cause = re.sub(r"M[0-9a-z]{7}-\d+", "ID", cause)
-    f = files[-1].replace("/repo/Rules/", "") if files else "?"
+    f = files[-1].replace(mcx.RULES + "/", "").replace("/repo/Rules/", "") if files else "?"
     p = "/".join(pats[-1]) if pats else "?"
     return f"{f}|{p}|{cause}"
 
